@@ -355,6 +355,10 @@ def run(ctx, rep):
     rep.floor("T5", 42)
     # T9 ring queue discipline
     check_queue(ctx, rep, m)
+    # T10 index code on the decoder side (shared with C16)
+    from rules.C16 import check_decoder_side
+    check_decoder_side(ctx, rep, "T10", "T10")
+    rep.floor("T10", 6)
     rep.analysed.update({"iteration_paths": len(its), "kinds": kinds, "derivation_function": D.qual,
                          "raise_paths": len(fr.raises)})
 
